@@ -506,7 +506,7 @@ Json gen_plan(const std::string &prop, const std::string &tier, u64 base_seed, u
     else if (prop == "C20") gen_c20(g);
     else if (prop == "C18") gen_threads(g, plan);
     else gen_history(g);
-    if (!plan.has("threads")) plan.set("ops", g.ops);
+    if (!plan.has("threads")) plan.set("ops", g.ops);   // thread plans set their own set-up "ops"
     return plan;
 }
 
